@@ -34,8 +34,12 @@ def systematic():
            {"op": "sign", "user": "bob"}, {"op": "sync", "k": 0}, {"op": "save", "user": "alice"}, {"op": "delete", "user": "bob"},
            {"op": "save", "user": "carol"}, {"op": "unsign", "user": "alice"}, {"op": "sign", "user": "carol"}]
     out = []
-    for k in range(0, 13):
+    for k in range(0, 24):
         out.append({"steps": pre + [{"op": "sync", "k": k}, {"op": "sync", "k": 0}], "origin": "fault-at-%d" % k})
+    # ... and at every operation on the primary: statements and single row fetches (a source connection that dies in the
+    # middle of a result set must fail the synchronisation, not truncate it)
+    for pk in range(1, 16):
+        out.append({"steps": pre + [{"op": "sync", "k": 0, "pk": pk}, {"op": "sync", "k": 0}], "origin": "primary-fault-at-%d" % pk})
     out.append({"steps": pre + [{"op": "sync", "k": 0}, {"op": "outage"}, {"op": "mutate_offline", "user": "alice"},
                                 {"op": "mutate_offline", "user": "carol"}, {"op": "recover"}, {"op": "save", "user": "alice"},
                                 {"op": "sync", "k": 0}], "origin": "outage"})
@@ -97,7 +101,7 @@ def run(tier, seed, work, replay):
                     continue
                 sig = {"action": ev["ev"], "guards": d["guards"]}
                 if ev["ev"] == "sync":
-                    sig["fault"] = "none" if ev["args"]["k"] == 0 or ev["out"]["ok"] else "injected"
+                    sig["fault"] = "none" if (ev["args"]["k"] == 0 and not ev["args"].get("pk")) else ("primary" if ev["args"].get("pk") else "cache")
                 detail = {"history": traces[t]["steps"][:ev["step"]], "event": ev, "origin": traces[t]["origin"]}
                 if res.classify(sig, detail, known) == "violation":
                     res.sample({"deviation": d, "event": ev})
